@@ -59,10 +59,49 @@ def check(src, rep):
     # every coroutine of the manager that creates tasks is a unit: its handles are local, so they must be settled at its own back-edges and exits
     from sa.asyncts import creates_task
     units = [f for name, f in CM.methods.items() if isinstance(f.node, ast.AsyncFunctionDef) and any(isinstance(n, ast.Call) and creates_task(n) for n in ast.walk(f.node))]
+    # the coroutines that run as part of the reconnect loop itself (awaited from it, transitively): each of their suspension points must be
+    # interruptible by close()
+    loop_units, work = [], [cl]
+    while work:
+        f = work.pop()
+        if f in loop_units:
+            continue
+        loop_units.append(f)
+        for n in ast.walk(f.node):
+            if isinstance(n, ast.Await) and isinstance(n.value, ast.Call) and isinstance(n.value.func, ast.Attribute) and isinstance(n.value.func.value, ast.Name) and n.value.func.value.id == "self":
+                g = CM.methods.get(n.value.func.attr)
+                if g is not None and isinstance(g.node, ast.AsyncFunctionDef) and g.kind == "method":
+                    work.append(g)
+    for f in loop_units:
+        if f not in units:
+            units.append(f)
+    loop_unit_names = {f.name for f in loop_units}
     n_handles = 0
     n_find = 0
+    nonlocal_find = []
     for f in units:
         ts = TaskTypestate(helpers, None)
+        if f in loop_units:
+            def on_await(stmt, e, st, ts=ts, f=f):
+                from sa.asyncts import SETTLED, call_name
+                ok_aw = False
+                if isinstance(e, ast.Call) and call_name(e) == "wait" and e.args:
+                    members = ts.names_in(e.args[0], st)
+                    raced = any(f"{CLOSING}.wait()" in ts.created.get(m_, ("",))[0] for m_ in members)
+                    first = any(k.arg == "return_when" and ast.unparse(k.value).endswith("FIRST_COMPLETED") for k in e.keywords)
+                    ok_aw = (raced and first) or (bool(members) and all(st.get(m_) in SETTLED for m_ in members))
+                elif isinstance(e, ast.Call) and call_name(e) == "gather":
+                    members = [m_ for a in e.args for m_ in ts.names_in(a, st)]
+                    ok_aw = bool(members) and all(st.get(m_) in SETTLED for m_ in members)
+                elif isinstance(e, ast.Call) and call_name(e) in helpers and (helpers[call_name(e)] or call_name(e) in loop_unit_names):
+                    ok_aw = True  # settle helper (cancelled tasks finish promptly) or another part of the loop, judged on its own
+                elif isinstance(e, ast.Name) and st.get(e.id) in SETTLED:
+                    ok_aw = True
+                if not ok_aw:
+                    nonlocal_find.append(1)
+                    rep.violation("R1", f"{MOD}.ConnectionManager.{f.name}", "uninterruptible-await", "the reconnect loop suspends on something that is not raced against the closing event "
+                                  "(and is not a settled task): close() cannot interrupt it, so the loop outlives close() by that wait", file, stmt.lineno, witness=ast.unparse(e)[:100])
+            ts.on_await = on_await
         findings = ts.analyse(f.node)
         n_handles += len(ts.created)
         for line, var, srcx, what in findings:
@@ -87,6 +126,7 @@ def check(src, rep):
                     rep.violation("R1", f"{MOD}.ConnectionManager.{f.name}", "wait-on-empty-set", f"{n.func.attr}(*{star.value.id}) hands the possibly empty rest of a FIRST_COMPLETED wait to a helper "
                                   "that awaits asyncio.wait() on it: wait() raises ValueError for an empty set, which ends the reconnect loop with live tasks/connection", file, n.lineno)
     rep.count("task_handles", n_handles)
+    n_find += len(nonlocal_find)
     if not n_find:
         rep.ok("R1", f"{n_handles} task handles in {len(units)} coroutine(s)", "every task created by the manager is Done or Cancelled at every loop back-edge and at the exit of the coroutine that created it "
                f"(helper summaries: {sorted(k for k, v in helpers.items() if v)} settle all their task arguments)")
@@ -189,26 +229,6 @@ def check(src, rep):
     _, ps = loop_body_paths(E, cl)
     rep.count("iteration_paths", len(ps))
 
-    def is_closing_wait_task(sv):
-        return isinstance(sv, tuple) and sv[0] == "call" and sv[1] in ("create_task", "ensure_future") and sv[2] and sv[2][0][0] == "call" and sv[2][0][1] == ".wait" \
-            and strip_epoch(sv[2][0][2][0]) == ("f0", SELF, CLOSING)
-    seen_aw = set()
-    for p in ps:
-        for e in p.effects:
-            if e[0] != "await" or e[2] in seen_aw:
-                continue
-            a = e[1]
-            ok_aw = False
-            if a[0] == "call" and a[1] == "wait" and a[2] and a[2][0][0] == "tuple":
-                raced = any(is_closing_wait_task(x) for x in a[2][0][1])
-                first = any(isinstance(k, tuple) and k[0] == "kw" and k[1] == "return_when" and "FIRST_COMPLETED" in str(k[2]) for k in a[2])
-                ok_aw = raced and first
-            elif a[0] == "call" and isinstance(a[1], str) and helpers.get(a[1].split(".")[-1]):
-                ok_aw = True  # the settle helper: cancelled tasks finish promptly
-            if not ok_aw:
-                seen_aw.add(e[2])
-                rep.violation("R1", f"{MOD}.ConnectionManager.connect_loop", "uninterruptible-await", "the reconnect loop suspends on something that is not raced against the closing event: "
-                              "close() cannot interrupt it, so the loop outlives close() by that wait", file, e[2], witness=show_sv(a)[:100])
     CONN = ("f0", SELF, conn)
     bad4 = bad5 = 0
     n_drop = 0
